@@ -42,6 +42,27 @@ pub fn tree_of(v: &Value) -> StructureTag {
     StructureTag { class, id, payload }
 }
 
+pub fn tag_of(v: &Value) -> Tag {
+    use lber::structures::{Boolean, ExplicitTag, Null, OctetString, Sequence, Set};
+    let k = v["k"].as_str().unwrap();
+    if k == "StructureTag" {
+        return Tag::StructureTag(tree_of(&v["tree"]));
+    }
+    let id = v["id"].as_u64().unwrap();
+    let class = class_of(v["cl"].as_u64().unwrap());
+    match k {
+        "Integer" => Tag::Integer(Integer { id, class, inner: v["v"].as_i64().unwrap() }),
+        "Enumerated" => Tag::Enumerated(Enumerated { id, class, inner: v["v"].as_i64().unwrap() }),
+        "OctetString" => Tag::OctetString(OctetString { id, class, inner: bytes_of(&v["bytes"]) }),
+        "Boolean" => Tag::Boolean(Boolean { id, class, inner: v["b"].as_bool().unwrap() }),
+        "Null" => Tag::Null(Null { id, class, inner: () }),
+        "Sequence" => Tag::Sequence(Sequence { id, class, inner: v["inner"].as_array().unwrap().iter().map(tag_of).collect() }),
+        "Set" => Tag::Set(Set { id, class, inner: v["inner"].as_array().unwrap().iter().map(tag_of).collect() }),
+        "ExplicitTag" => Tag::ExplicitTag(ExplicitTag { id, class, inner: Box::new(tag_of(&v["inner"])) }),
+        _ => panic!("tag kind"),
+    }
+}
+
 pub fn tree_json(t: &StructureTag) -> Value {
     match &t.payload {
         PL::P(b) => json!({"cl": t.class as u8, "id": t.id, "p": b}),
@@ -103,6 +124,19 @@ fn run(case: &Value) -> Value {
             let mut buf = BytesMut::new();
             lber::write::encode_into(&mut buf, t).unwrap();
             json!({"bytes": buf.to_vec()})
+        }
+        "roundtrip" => {
+            let t = tree_of(&case["tree"]);
+            let mut buf = BytesMut::new();
+            lber::write::encode_into(&mut buf, t).unwrap();
+            let enc = buf.to_vec();
+            let mut all = enc.clone();
+            all.extend(bytes_of(&case["trail"]));
+            json!({"bytes": enc, "parsed": nom_res(lber::parse::parse_tag(&all))})
+        }
+        "tag_into_structure" => {
+            let t = tag_of(&case["tag"]);
+            json!({"tree": tree_json(&t.into_structure())})
         }
         "decode" => {
             let b = bytes_of(&case["bytes"]);
